@@ -11,6 +11,7 @@ import (
 	"grog/internal/console"
 	"grog/internal/label"
 	"grog/internal/model"
+	"grog/internal/output/handlers"
 )
 
 /*
@@ -154,7 +155,7 @@ func pathTriesToEscape(relPath string) bool {
 func checkOutputsAreWithinRepository(target *model.Target) (errs []error) {
 	workspaceRoot := config.Global.WorkspaceRoot
 
-	for _, output := range target.FileOutputs() {
+	for _, output := range pathOutputs(target) {
 		if path.IsAbs(output) {
 			errs = append(errs, fmt.Errorf(
 				"output %s for target %s is not relative",
@@ -183,6 +184,18 @@ func checkOutputsAreWithinRepository(target *model.Target) (errs []error) {
 	}
 
 	return
+}
+
+// pathOutputs returns the identifiers of all outputs that are paths in the workspace,
+// i.e. file and directory outputs (including the bin output).
+func pathOutputs(target *model.Target) []string {
+	var paths []string
+	for _, output := range target.AllOutputs() {
+		if output.IsFile() || output.Type == string(handlers.DirHandler) {
+			paths = append(paths, output.Identifier)
+		}
+	}
+	return paths
 }
 
 // isWithinWorkspace checks whether the resolved path (when joined with a starting directory)
